@@ -193,6 +193,7 @@ func checkC14(p *Program, r *Report) {
 		"R3 every runInfoStruct is a local allocation that does not escape to a global, a channel or a go statement. " +
 		"R4 the import handler uses the package tables only as range operands and re-binds each entry in an environment created there. " +
 		"R5 every reflect.Value kept in a package-level variable (or element) is built by a constructor that yields a non-addressable Value; addressable ones are shared mutable storage that & and *p = v could reach.")
+	r.Explain("R6 a deep copy of an environment (the way a host isolates runs that start from one template) recurses with itself over the whole parent chain: no scope of the original is shared with the copy.")
 	r.Assume("determinism of host functions, map iteration order and goroutine scheduling are outside the statement")
 	r.Exhaustive = true
 
@@ -257,6 +258,13 @@ func checkC14(p *Program, r *Report) {
 	c14Globals(p, r)
 	c14RunInfo(p, r)
 	c14Import(p, r)
+	// R6: snapshots used to isolate runs cover the whole scope chain
+	if em, err := buildEnvModel(p); err != nil {
+		r.Undecided("C14.R6", "model", "env", err.Error())
+	} else {
+		n := envWholeChainCopy(p, r, em, SrcFuncs(em.sp), "C14.R6")
+		r.Floor("C14.R6", n, 1)
+	}
 }
 
 func describeRoot(v ssa.Value) string {
